@@ -14,3 +14,65 @@ pub fn eval_expr(
 ) -> Result<crate::array::ArrayImpl, crate::types::ConvertError> {
     crate::executor::VerifEvaluator::new(expr).eval(chunk)
 }
+
+/// Fault injection into the per-operator output loop of the executor (`Builder::spawn`).
+/// Disarmed by default; with nothing armed the calls only count chunks.
+pub mod fault {
+    use std::sync::Mutex;
+
+    #[derive(Default)]
+    struct State {
+        /// operators in the order their tasks were spawned (post-order of the plan): name, items seen
+        ops: Vec<(String, usize)>,
+        /// (operator index, item index, panic?)
+        armed: Option<(usize, usize, bool)>,
+        hit: bool,
+    }
+
+    static STATE: Mutex<Option<State>> = Mutex::new(None);
+
+    /// Start observing a statement; `armed` = (operator index, item index, panic instead of error).
+    pub fn begin(armed: Option<(usize, usize, bool)>) {
+        *STATE.lock().unwrap() = Some(State {
+            armed,
+            ..Default::default()
+        });
+    }
+
+    /// Stop observing: the operators seen (name, number of items they produced) and whether the
+    /// armed fault was reached.
+    pub fn end() -> (Vec<(String, usize)>, bool) {
+        match STATE.lock().unwrap().take() {
+            Some(s) => (s.ops, s.hit),
+            None => (vec![], false),
+        }
+    }
+
+    /// Called when an operator task is spawned; returns its index.
+    pub fn register(name: &str) -> usize {
+        match STATE.lock().unwrap().as_mut() {
+            Some(s) => {
+                s.ops.push((name.to_string(), 0));
+                s.ops.len() - 1
+            }
+            None => usize::MAX,
+        }
+    }
+
+    /// Called for every item an operator is about to hand to its consumers.
+    /// `Some(true)`: panic now; `Some(false)`: replace the item by an error.
+    pub fn on_item(op: usize) -> Option<bool> {
+        let mut guard = STATE.lock().unwrap();
+        let s = guard.as_mut()?;
+        let (_, n) = s.ops.get_mut(op)?;
+        let k = *n;
+        *n += 1;
+        match s.armed {
+            Some((o, i, panic)) if o == op && i == k => {
+                s.hit = true;
+                Some(panic)
+            }
+            _ => None,
+        }
+    }
+}
